@@ -2,6 +2,8 @@ package harness
 
 import (
 	"encoding/json"
+	"fmt"
+	"os"
 	"sort"
 	"time"
 
@@ -214,6 +216,12 @@ func WithBudget(b uint64, f func()) {
 // Run is RunCLI plus bookkeeping.
 func (e *Env) Run(spec world.Spec) *RunResult {
 	r := RunCLI(e.Prog, spec)
+	if os.Getenv("VERIF_DUMP") != "" {
+		fmt.Fprintf(os.Stderr, "RUN args=%v outcome=%s exit=%d\n stdout=%q\n stderr=%q\n", spec.Args, r.Outcome, r.Exit, clip(string(r.Stdout), 600), clip(string(r.Stderr), 600))
+		for _, o := range r.Log {
+			fmt.Fprintf(os.Stderr, "   op %d %s %s %s n=%d err=%s fault=%s\n", o.Seq, o.Name, o.Path, o.Path2, o.N, o.Err, o.Fault)
+		}
+	}
 	if !e.Quiet {
 		e.Stats.NoteRun(r)
 		HashRun(r)
